@@ -1048,6 +1048,7 @@ func (a *vzAdv) injectReplay() {
 			w.s.Logf("adv replay %d (%s) => err=%v", id, expect, r.Err)
 			w.orc.onReplayResult(a.nd, hdr, proof, expect, r.Err)
 		case <-ctx.Done():
+			w.orc.onReplayUnanswered(a.nd, hdr)
 		}
 	}()
 }
